@@ -73,6 +73,7 @@ pub fn run(run: &Run) {
     let f = fmts::ascii(); // names only; Typst rendering does not depend on a format
     let mut vals: Vec<V> = u::u_term(&fmts::han(), tier).into_iter().map(V::term).collect();
     vals.extend(u::u_sent(&f));
+    vals.extend(u::float_family());
     // rendering -> (class, example)
     let table: Mutex<HashMap<String, (CV, V)>> = Mutex::new(HashMap::new());
     let record = |s: String, v: &V| {
